@@ -191,6 +191,8 @@ func isErrOf(v, call ssa.Value) bool {
 		if a, ok := u.X.(*ssa.Alloc); ok {
 			if sv := singleStore(a); sv != nil {
 				v = strip(sv)
+			} else if sv := lastStoreBefore(a, u); sv != nil {
+				v = strip(sv)
 			}
 		}
 	}
@@ -354,4 +356,38 @@ func inLoop(b *ssa.BasicBlock) bool {
 		work = append(work, x.Succs...)
 	}
 	return false
+}
+
+// lastStoreBefore: the value most recently stored into local a before the load ld,
+// when that store is in the same block as ld and only pure instructions (no call
+// that could write a) lie in between.
+func lastStoreBefore(a *ssa.Alloc, ld *ssa.UnOp) ssa.Value {
+	b := ld.Block()
+	idx := instrIndex(ld)
+	for i := idx - 1; i >= 0; i-- {
+		switch x := b.Instrs[i].(type) {
+		case *ssa.Store:
+			if x.Addr == ssa.Value(a) {
+				return x.Val
+			}
+		case ssa.CallInstruction:
+			// a call may write a only if a's address escaped into it
+			for _, arg := range x.Common().Args {
+				if arg == ssa.Value(a) {
+					return nil
+				}
+			}
+			if _, isDefer := x.(*ssa.Defer); isDefer {
+				continue
+			}
+			if mc, ok := x.Common().Value.(*ssa.MakeClosure); ok {
+				for _, bnd := range mc.Bindings {
+					if bnd == ssa.Value(a) {
+						return nil
+					}
+				}
+			}
+		}
+	}
+	return nil
 }
